@@ -316,6 +316,16 @@ def algebra(depth, part):
         kids = pos_children(p)
         if [tuple(k) for k in kids] != [tuple(k) for k in quadtree.children(p)]:
             bad("children", "pos_children(%r) = %r" % (tuple(p), kids))
+        # what a caller does with the list it was given is its own business (sorting it, consuming it): the
+        # next question about the same position gets the same answer
+        if isinstance(kids, list) and p.n % 2 == 0:
+            kept = [tuple(k) for k in kids]
+            kids.reverse()
+            kids.pop()
+            again = pos_children(p)
+            if [tuple(k) for k in again] != kept:
+                bad("children-after-caller-changed-its-list", "pos_children(%r) after the caller reversed and shortened the list returned earlier = %r" % (tuple(p), again))
+            kids = again
         for j, k in enumerate(kids):
             par_, ix, iy = pos_parent(k)
             if tuple(par_) != tuple(p) or (ix, iy) != (j % 2, j // 2):
@@ -347,6 +357,8 @@ def algebra(depth, part):
 
 
 def _work(job):
+    if job[0] == "e1":
+        return stages.explore_to_part(job[1], PROP)
     part = Part()
     if job[0] == "algebra":
         algebra(job[1], part)
@@ -370,7 +382,7 @@ def run(tier, seed):
     rep.rule = (
         "every (kind, depth, effective filter, apex) of the C01 enumeration: counts vs callbacks vs reference quadtree vs closed forms, "
         "generator order/uniqueness, sub-pyramid vs full; deep pyramids (depth 8..12, generic and TOAST) restricted to apexes 0-2 levels above the leaves; plus position algebra on every pair of positions to depth %d; "
-        "non-trivial = filtered or sub-pyramid case with live tiles, or a pair/position below the root" % (4 if tier == "quick" else 5)
+        "non-trivial = filtered or sub-pyramid case with live tiles, or a pair/position below the root; plus 4 configurations of one pyramid object counted, then walked and leaf-visited by 2 worker processes (stateful exploration over the virtual multiprocessing layer; deviation bound 3 in the quick tier)" % (4 if tier == "quick" else 5)
     )
     rep.assumptions = ["depth-2 filters are exhaustive (17^4, both coordinate systems in thorough); depth-3 filters are exhaustive inside each single level-1 quadrant (thorough)"]
     cases = c01.e2_cases(tier)
@@ -387,12 +399,26 @@ def run(tier, seed):
     jobs = [("algebra", 4 if tier == "quick" else 5)] + [("cases", cases[i::n]) for i in range(n)]
     dc = deep_cases(tier)
     jobs += [("deep", dc[i::8]) for i in range(8)]
+    # the counts against what worker processes visit: one pyramid object counted, walked and leaf-visited in
+    # parallel, in both orders (every interleaving within the deviation bound; unbounded in the thorough tier)
+    C = stages.CountsVsParallel
+    dev = 3 if tier == "quick" else None
+    e1 = [
+        C(kind="generic", depth=1, W=2, max_deviations=dev, seed=seed),
+        C(kind="generic", depth=1, W=2, order=("leaves", "walk"), max_deviations=dev, seed=seed),
+        C(kind="filtered", depth=2, W=2, accepted=stages.FILTER_5LEAVES, max_deviations=dev, seed=seed),
+        C(kind="generic", depth=2, W=2, apex=(1, 1, 0), order=("leaves", "walk"), max_deviations=dev, seed=seed),
+    ]
+    jobs = [("e1", c) for c in e1] + jobs
     par.pmap(_work, jobs, rep)
+    stages.finish_model_report(rep)
     return rep.finish()
 
 
 def replay(payload):
     r = payload["replay"]
+    if "harness" in r:
+        return stages.replay(payload)
     part = Part()
     if "kind" not in r:
         algebra(r["depth"], part)
